@@ -1,9 +1,9 @@
-\* behaviour generator (simulation): streams of up to 10 instructions of 1..3 units, n/c, 6 insertions, 3 links, 1 re-insertion
+\* behaviour generator (simulation): streams of up to 10 unit-length instructions, n/c/d, 6 insertions, 3 links, 1 re-insertion
 CONSTANTS
   MinN = 4
   MaxN = 10
-  Lens = {1, 2, 3}
-  Flags = {"n", "c"}
+  Lens = {1}
+  Flags = {"n", "c", "d"}
   MaxIns = 6
   MaxLinks = 3
   MaxRe = 1
